@@ -10,7 +10,7 @@ The writer part of C09 uses the `c12.trace` / `c12.traceu` commands of Hts.Drv.C
       blocks, ops as in c02.run; oracle: one letter per load attempt after NewReader, in program order:
       o (no fault) | x (the load fails: error, error after partial data, truncation inside the member)
       | e (the source reports a clean end of input at the member start); "-" = no faults.
-      The operational model `Hts.Model.Bgzf.FReader` (rd = 1 path); answer as c02.run, plus `|<loads used>`.
+      The operational model `Hts.Model.Bgzf.FReader` (rd = 1 path); answer as c02.run, plus `|<loads used>|<class of Close()>`.
 -/
 import Hts.Drv.Util
 import Hts.Model.ReaderFaults
@@ -48,11 +48,13 @@ def handle (cmd : String) (args : List String) : Option String :=
     | .error e => some ("new:" ++ Hts.Drv.C02.errClass (some e))
     | .ok r =>
       let run := (Hts.Model.Bgzf.FReader.mk r orc).run ops
-      let used := match run.getLast? with
-        | some (_, x) => orc.length - x.oracle.length
-        | none => 0
+      let last := match run.getLast? with
+        | some (_, x) => x
+        | none => Hts.Model.Bgzf.FReader.mk r orc
+      let used := orc.length - last.oracle.length
       some (";".intercalate (run.map fun (o, x) =>
-        Hts.Drv.C02.showRes o.bytes o.err x.r.lastChunk x.r.blockLen) ++ s!"|{used}")
+        Hts.Drv.C02.showRes o.bytes o.err x.r.lastChunk x.r.blockLen) ++
+        s!"|{used}|{Hts.Drv.C02.errClass last.close}")
   | _, _ => none
 
 end Hts.Drv.C09
